@@ -47,7 +47,7 @@ def run_mutant(args):
     cp = os.path.join(cache_dir, ck + ".json")
     if os.path.exists(cp):
         return json.load(open(cp))
-    edits = m.get("edits") or [[m["file"], m["old"], m["new"]]]
+    edits = m.get("edits") or [[m["file"], m["old"], m["new"]] + ([m["nth"], m["count"]] if "nth" in m else [])]
     res = {"id": m["id"], "status": None, "reported": []}
     try:
         out, sc = build.variant_facts([tuple(e) for e in edits], base_fdir)
